@@ -77,7 +77,7 @@ def run_batches(prop, vseed, tier, n_runs, batch_size, workers, outdir, wall_lim
     env_base = dict(os.environ)
     env_base['PYTHONDONTWRITEBYTECODE'] = '1'
     env_base['PYTHONPATH'] = VERIF
-    env_base['DDSIM_OPEN_FINDINGS'] = ','.join(k['id'] for k in load_known() if k.get('status') == 'open')
+    env_base['DDSIM_OPEN_FINDINGS'] = ','.join(k['id'] + '@' + k['property'] for k in load_known() if k.get('status') == 'open')
     t_start = time.time()
 
     def launch(bt):
